@@ -1,5 +1,6 @@
 import PyYetiVerif.Props.C12
 import PyYetiVerif.Lemmas.NasCardsMultiWr
+import PyYetiVerif.Lemmas.NasCardsMultiCmt
 /-!
 # C12, extension — the generic card reader with all its options, multi-card files, tabs
 
@@ -132,6 +133,27 @@ theorem rdcards_assembled (name : Str) (toks8 toks16 : List Tok) (keep : Bool) (
   rw [this]
   simp
 
+/-- a block none of whose lines starts with the name contributes no card (the hypothesis of
+`rdcards_assembled` on the foreign blocks, in checkable form). -/
+theorem rdcards_foreign_block (name : Str) (keep : Bool) (text : Str)
+    (h : ∀ l ∈ fileLines text, prefixMatch name l = false) : rdcards name keep text = [] := by
+  have key : ∀ (f : Nat) (ls : List Str), (∀ l ∈ ls, prefixMatch name l = false) →
+      rdcardsGo name keep f ls = [] := by
+    intro f
+    induction f with
+    | zero => intro ls _; simp [rdcardsGo]
+    | succ f ih =>
+      intro ls hls
+      cases ls with
+      | nil => simp [rdcardsGo]
+      | cons l rest =>
+        have hl : (lower name).isPrefixOf (lower l) = false := hls l List.mem_cons_self
+        rw [rdcardsGo]
+        simp only [hl, Bool.false_eq_true, if_false]
+        exact ih rest (fun l' hl' => hls l' (List.mem_cons_of_mem _ hl'))
+  unfold rdcards
+  exact key _ _ h
+
 /-- non-vacuity: a comment line and `ENDDATA` are blocks that contribute no `GRID` card, and the
 hypotheses on the name hold for `GRID`. -/
 example : (∀ l ∈ ["$ a comment\n".toList, "ENDDATA\n".toList],
@@ -143,6 +165,37 @@ example : (∀ l ∈ ["$ a comment\n".toList, "ENDDATA\n".toList],
   rcases hl with rfl | rfl
   · exact ⟨⟨⟨"$ a comment".toList, rfl⟩, by decide⟩, by decide, by decide⟩
   · exact ⟨⟨⟨"ENDDATA".toList, rfl⟩, by decide⟩, by decide, by decide⟩
+
+/-! ## `keep_comments=True` -/
+
+/-- **every comment line is kept, once, in file order**: with `return_var='list'` and
+`keep_comments=True` the comment items of the result are exactly the lines of the file that start
+with `$` (raw text, tabs not expanded) — whether a comment stands before a card, between a card
+line and its continuation lines, or after the last card. -/
+theorem kept_comments_complete (o : RdOpts) (m : Str → Bool) (ls : List Str) (items : List Item)
+    (hrv : o.retVar = .list) (hkc : o.keepComments = true) (h : rdcardsFull o m ls = .list items) :
+    commentsOf items = ls.filter isCommentLine := by
+  unfold rdcardsFull rdcardsT at h
+  have e1 : effTolist o = true := by simp [effTolist, hrv]
+  simp only [e1, hkc, Bool.true_and, Bool.and_self] at h
+  unfold finishRd at h
+  rw [hrv] at h
+  simp only at h
+  split_ifs at h
+  simp only [RdResult.list.injEq] at h
+  rw [← h]
+  unfold rdItems
+  rw [rdItemsGo_comments _ _ _ _ _ [] (le_refl _), List.nil_append, cmtLines_prep]
+
+/-- non-vacuity: a comment between a card and its continuation line is kept (and does not end the
+card, as it would with `keep_comments=False`). -/
+example : rdcardsFull ⟨none, .list, .float, false, true⟩ (prefixMatch "a".toList)
+      (fileLines "$ one\nA,1\n$ two\n+,2\n".toList) =
+        .list [.comment "$ one\n".toList, .card [.int 1, .str [], .str [], .str [], .str [], .str [], .str [],
+          .str [], .int 2], .comment "$ two\n".toList] ∧
+    rdcardsFull ⟨none, .list, .float, false, false⟩ (prefixMatch "a".toList)
+      (fileLines "$ one\nA,1\n$ two\n+,2\n".toList) = .list [.card [.int 1]] := by
+  constructor <;> decide +kernel
 
 /-! ## `return_var='array'` and `'dict'` -/
 
